@@ -200,11 +200,9 @@ def r4(cx):
             if ps["mac"] and ("format" in ps["mac"] or "quote" in ps["mac"]): continue
             n += 1
             key = "gen:%s:%s" % (b.path, ps["key"])
-            if ps["kind"] == "unwrap" and ps["what"] == "Result::unwrap":
-                per += 1
-                lim = allowed_fns.get(b.path)
-                if lim is not None and per <= lim:
-                    cx.ok("C09.R4", key, "%s %s" % (ps["sp"], b.path), "table: identifier/type sink, see C09.R1"); continue
+            if ps["kind"] == "unwrap" and ps["what"] == "Result::unwrap" and re.search(r"<-(.*\+)?call:(syn::parse_str|TokenStream::from_str|FromStr::from_str|str::parse)(\+.*)?$", ps["skey"]):
+                key = "gen:%s" % ps["skey"]
+                cx.ok("C09.R4", key, "%s %s" % (ps["sp"], b.path), "table: identifier/type sink (unwrap of parse_str/from_str on generator-built text), judged by C09.R1"); continue
             cx.bad("C09.R4", key, "%s %s" % (ps["sp"], b.path), "new may-panic construct (%s %s) in the generator: an accepted interface definition reaching it aborts generation with a panic instead of a diagnostic" % (ps["kind"], ps["what"]))
     cx.floor("C09.R4", "generator functions reachable from the front-ends", len(bodies), 8)
     cx.notes.append("C09.R4: %d may-panic constructs examined" % n)
